@@ -30,8 +30,9 @@ BOUNDS = {"quick": "<= 2 parameters, <= 1 documented result; option strings <= 9
 MANIFEST = {
     "text": "Bounded symbolic: the reconciliation table, the warning set and WARN/IGNORE output equality are decided by "
             "CrossHair for every configuration within the bound; option parsing by z3 for all strings within the bound.",
-    "note": "Trusted: CrossHair/z3, shim, translator validation. Known findings: under the DOCSTRING preference the "
-            "docstring's default/optionality replace the code's.",
+    "note": "Trusted: CrossHair/z3, shim, translator validation. A type inferred from a literal default counts as the "
+            "code's type. Known findings: the docstring's default/optionality replace the code's (DOCSTRING preference; "
+            "parameters without type hint).",
     "technique": "CrossHair symbolic execution of the real visitor with a nondeterministic docstring stub + AST->SMT encoding of option parsing",
 }
 
